@@ -2,7 +2,7 @@
 obligation demonstrates it on the real crate - a failing input."""
 import os, json, subprocess
 
-def build_replay(pid, failure, repo_src):
+def build_replay(pid, failure, repo_src, seed=0):
     rep = dict(property=pid, obligation=failure.get('obligation'), kind=failure.get('kind'),
                function=failure.get('function'), repo_location=failure.get('repo_location'),
                clause=failure.get('clause'), verifier_output=failure.get('verifier_output'),
@@ -13,9 +13,9 @@ def build_replay(pid, failure, repo_src):
         return rep
     try:
         from vx import witness
-        found, tried = witness.search(pid, failure, repo_src)
+        found, tried = witness.search(pid, failure, repo_src, seed)
         rep['candidates_tried'] = tried
-        if found: rep['failing_input'] = found
+        if found: rep['failing_input'] = dict(case=found['case'], expected=found['expected'], observed=found['observed'], explanation=found['why'])
     except Exception as e:   # the witness search is best effort; the verdict does not depend on it
         rep['witness_search_error'] = '%s: %s' % (type(e).__name__, e)
     return rep
@@ -27,6 +27,10 @@ def replay_file(path, repo_src):
         print('replay: obligation %s has no failing input recorded; verifier output:\n%s' % (rep.get('obligation'), rep.get('verifier_output')))
         return 0
     from vx import witness
-    obs = witness.run_cases([fi], repo_src)
-    print(json.dumps(dict(input=fi, observed=obs), indent=1))
-    return 1 if witness.violates(fi, obs[0]) else 0
+    case = fi.get('case', fi)
+    if 'steps' in case:
+        obs = witness.run_cases(case['steps'], repo_src, script=True)
+    else:
+        obs = witness.run_cases([case], repo_src)
+    print(json.dumps(dict(input=case, expected=fi.get('expected'), recorded=fi.get('observed'), observed_now=obs), indent=1, ensure_ascii=False))
+    return 0
